@@ -2,7 +2,7 @@
 // runs: the pipeline under test and a byte-exact, sectioned digest of everything it returns.
 
 use glam::DVec3;
-use meshless_voronoi::integrals::{AreaCentroidIntegral, AreaIntegral, CellIntegral, FaceIntegral, VolumeCentroidIntegral, VolumeIntegral};
+use meshless_voronoi::integrals::{AreaCentroidIntegral, AreaIntegral, CellIntegral, CellIntegralWithData, FaceIntegral, FaceIntegralWithData, VolumeCentroidIntegral, VolumeIntegral};
 use meshless_voronoi::{ConvexCell, ConvexCellMarker, Dimensionality, Voronoi, VoronoiIntegrator};
 
 #[derive(Clone, Debug)]
@@ -119,6 +119,14 @@ pub fn pipeline_inputs() -> Vec<PInput> {
         g.push(v(0.5 + rad * r * phi.cos(), 0.5 + rad * r * phi.sin(), 0.5 + rad * z));
     }
     inputs.push(PInput { name: "3D shell of 70 around one generator (cell with >= 128 vertices)", dim: 3, periodic: false, anchor: v(0., 0., 0.), width: v(1., 1., 1.), gens: g, mask: None, explore: true });
+    // a sparse mask: 2 of 20 cells constructed (a share below any "few active cells" threshold a fast path could use)
+    let mut g = vec![];
+    for i in 0..20 {
+        let t = (i + 1) as f64;
+        g.push(v((0.5 + 0.8191725 * t).fract(), (0.5 + 0.6710436 * t).fract(), (0.5 + 0.5497005 * t).fract()));
+    }
+    let mask: Vec<bool> = (0..20).map(|i| i == 4 || i == 13).collect();
+    inputs.push(PInput { name: "3D n=20, 2 cells constructed (sparse mask)", dim: 3, periodic: false, anchor: v(0., 0., 0.), width: v(1., 1., 1.), gens: g, mask: Some(mask), explore: true });
     // history-only inputs: small configurations chosen to collide on anything a cache could be keyed by - the same
     // width in different dimensionalities, the same dimensionality with different widths, periodic and not, different
     // generator counts, an extreme length scale
@@ -141,6 +149,36 @@ pub fn pipeline_inputs() -> Vec<PInput> {
     }
     inputs.push(h("H 3D reflective unit n=12", 3, false, v(0., 0., 0.), unit, g.clone()));
     inputs.push(h("H 3D periodic unit n=12", 3, true, v(0., 0., 0.), unit, g));
+    // the 2x2x2 lattice of the explored inputs (exact ties: the exact predicate is reached) in a larger, shifted box:
+    // same generator indices and positions, different integer grid
+    let mut g = vec![];
+    for i in 0..2 {
+        for j in 0..2 {
+            for k in 0..2 {
+                g.push(v(0.25 + 0.5 * i as f64, 0.25 + 0.5 * j as f64, 0.25 + 0.5 * k as f64));
+            }
+        }
+    }
+    inputs.push(h("H 3D 2x2x2 lattice in the box [-1,2]^3", 3, false, v(-1., -1., -1.), v(3., 3., 3.), g.clone()));
+    inputs.push(h("H 3D 2x2x2 lattice in the periodic box [0,1]^3", 3, true, v(0., 0., 0.), unit, g.clone()));
+    // a single constructed cell (the same index and position, exact ties) in two different boxes: whatever a worker
+    // remembers about "the last cell" is about this very cell
+    let only0: Vec<bool> = (0..8).map(|i| i == 0).collect();
+    inputs.push(PInput { name: "H 3D 2x2x2 lattice, only cell 0, box [0,1]^3", dim: 3, periodic: false, anchor: v(0., 0., 0.), width: unit, gens: g.clone(), mask: Some(only0.clone()), explore: false });
+    inputs.push(PInput { name: "H 3D 2x2x2 lattice, only cell 0, box [-1,2]^3", dim: 3, periodic: false, anchor: v(-1., -1., -1.), width: v(3., 3., 3.), gens: g.clone(), mask: Some(only0.clone()), explore: false });
+    inputs.push(PInput { name: "H 3D 2x2x2 lattice, only cell 0, periodic box [0,1]^3", dim: 3, periodic: true, anchor: v(0., 0., 0.), width: unit, gens: g.clone(), mask: Some(only0.clone()), explore: false });
+    // ... and in boxes slid by a small amount (the integer grid moves by a few units only)
+    inputs.push(PInput { name: "H 3D 2x2x2 lattice, only cell 0, box slid by (-1/64, 0, 0)", dim: 3, periodic: false, anchor: v(-1. / 64., 0., 0.), width: unit, gens: g.clone(), mask: Some(only0.clone()), explore: false });
+    inputs.push(PInput { name: "H 3D 2x2x2 lattice, only cell 0, periodic box slid by (-0.01, 0.003, 0)", dim: 3, periodic: true, anchor: v(-0.01, 0.003, 0.), width: unit, gens: g, mask: Some(only0), explore: false });
+    let mut g4 = vec![];
+    for i in 0..4 {
+        for j in 0..4 {
+            g4.push(v((i as f64 + 0.5) / 4., (j as f64 + 0.5) / 4., 0.));
+        }
+    }
+    let only5: Vec<bool> = (0..16).map(|i| i == 5).collect();
+    inputs.push(PInput { name: "H 2D 4x4 lattice, only cell 5, periodic unit box", dim: 2, periodic: true, anchor: v(0., 0., 0.), width: unit, gens: g4.clone(), mask: Some(only5.clone()), explore: false });
+    inputs.push(PInput { name: "H 2D 4x4 lattice, only cell 5, periodic box slid by (-0.01, 0, 0)", dim: 2, periodic: true, anchor: v(-0.01, 0., 0.), width: unit, gens: g4, mask: Some(only5), explore: false });
     inputs
 }
 
@@ -301,6 +339,41 @@ impl FaceIntegral for OrderSensitive {
     }
 }
 
+/// The same downstream integral carrying a per-cell datum (a function of the generator index): the result depends
+/// on which datum reached which cell.
+#[derive(Clone, Default)]
+pub struct WithDatum {
+    pub inner: OrderSensitive,
+    pub datum: u64,
+    pub idx: usize,
+}
+
+impl CellIntegralWithData for WithDatum {
+    type Data = u64;
+    fn init_with_data<M: ConvexCellMarker>(cell: &ConvexCell<M>, data: u64) -> Self {
+        WithDatum { inner: OrderSensitive { acc: data as f64, k: 0 }, datum: data, idx: cell.idx }
+    }
+    fn collect(&mut self, v0: DVec3, v1: DVec3, v2: DVec3, gen: DVec3) {
+        CellIntegral::collect(&mut self.inner, v0, v1, v2, gen)
+    }
+    fn finalize(self) -> Self {
+        self
+    }
+}
+
+impl FaceIntegralWithData for WithDatum {
+    type Data = u64;
+    fn init_with_data<M: ConvexCellMarker>(cell: &ConvexCell<M>, _clipping_plane_idx: usize, data: u64) -> Self {
+        WithDatum { inner: OrderSensitive { acc: data as f64, k: 0 }, datum: data, idx: cell.idx }
+    }
+    fn collect(&mut self, v0: DVec3, v1: DVec3, v2: DVec3, gen: DVec3) {
+        FaceIntegral::collect(&mut self.inner, v0, v1, v2, gen)
+    }
+    fn finalize(self) -> Self {
+        self
+    }
+}
+
 fn integrals_sections<M: ConvexCellMarker + 'static>(d: &mut Digest, tag: &str, integ: &VoronoiIntegrator<M>, n: usize) {
     d.start();
     for c in integ.compute_cell_integrals::<VolumeCentroidIntegral>() {
@@ -319,11 +392,13 @@ fn integrals_sections<M: ConvexCellMarker + 'static>(d: &mut Digest, tag: &str, 
         d.u(c.k);
     }
     d.end(&format!("{}: compute_cell_integrals<downstream>", tag));
-    let units = vec![(); n];
+    let data: Vec<u64> = (0..n as u64).map(|i| 1000 + 17 * i).collect();
     d.start();
-    for c in integ.compute_cell_integrals_with_data::<(), OrderSensitive>(&units) {
-        d.f(c.acc);
-        d.u(c.k);
+    for c in integ.compute_cell_integrals_with_data::<u64, WithDatum>(&data) {
+        d.f(c.inner.acc);
+        d.u(c.inner.k);
+        d.u(c.datum);
+        d.u(c.idx as u64);
     }
     d.end(&format!("{}: compute_cell_integrals_with_data", tag));
     d.start();
@@ -344,15 +419,17 @@ fn integrals_sections<M: ConvexCellMarker + 'static>(d: &mut Digest, tag: &str, 
     }
     d.end(&format!("{}: compute_face_integrals_sym<Area>", tag));
     d.start();
-    for f in integ.compute_face_integrals_with_data::<(), OrderSensitive>(&units) {
+    for f in integ.compute_face_integrals_with_data::<u64, WithDatum>(&data) {
         d.u(f.left() as u64);
-        d.f(f.integral().acc);
+        d.f(f.integral().inner.acc);
+        d.u(f.integral().datum);
     }
     d.end(&format!("{}: compute_face_integrals_with_data", tag));
     d.start();
-    for f in integ.compute_face_integrals_sym_with_data::<(), OrderSensitive>(&units) {
+    for f in integ.compute_face_integrals_sym_with_data::<u64, WithDatum>(&data) {
         d.u(f.left() as u64);
-        d.f(f.integral().acc);
+        d.f(f.integral().inner.acc);
+        d.u(f.integral().datum);
     }
     d.end(&format!("{}: compute_face_integrals_sym_with_data", tag));
 }
